@@ -6,7 +6,7 @@ From PT Require Import Base.Scalar Base.Field Base.BigSum Base.Mx Model.Tensor M
 From PT Require Import Proofs.BondOpsPerm Proofs.BondOpsLoop Proofs.BondOpsSpec Proofs.MPSOpsBase Proofs.MPSOpsShape Proofs.MPSOpsMul.
 From PT Require Import Proofs.BondOpsRetained Proofs.BondOpsSVD.
 From PT Require Import Proofs.OrthDefs Proofs.OrthQRExtra Proofs.OrthGram Proofs.OrthLocal Proofs.OrthSweep Proofs.OrthTop Proofs.OrthRight.
-From PT Require Import Proofs.CompressPartial Proofs.CompressSVD Proofs.CompressLocal Proofs.CompressSweep Proofs.CompressTop.
+From PT Require Import Proofs.CompressPartial Proofs.CompressSVD Proofs.CompressLocal Proofs.CompressSweep Proofs.CompressTop Proofs.CompressError.
 Import ListNotations.
 
 (* ---------- sums over all words are invariant under reversal of the words ---------- *)
@@ -394,7 +394,8 @@ Section CRightTop.
     assert (HwfA1 : Forall (Forall (@wf CF)) (rev As1)) by (apply Forall_rev; apply (chain_shape_wf d (lens qDs1)); exact Hshape1).
     assert (HampM1 : forall w, length w = length As1 -> letters d w -> amp (rev (map (@trs CF) As1)) (rev w) = amp As1 w).
     { intros w Hlw Hw. apply (amp_mirror CF d (lens qDs1)); assumption. }
-    rewrite <- !map_rev in HshapeM, HsparseM, HrisoM, HposM, HhdM, HlastM, HampM1.
+    rewrite <- (map_rev (@trs CF) As1) in HshapeM, HsparseM, HrisoM, HampM1.
+    rewrite <- (map_rev zneg qDs1) in HshapeM, HsparseM, HrisoM, HposM, HhdM, HlastM.
     unfold compress_ok, compress_args in Hsvd. cbn [m_qd m_qD m_A] in Hsvd.
     unfold compress_eps, compress_args. cbn [m_qd m_qD m_A].
     assert (HT : forall t, compress_T dqr dsvd pick tol false p = Some t -> abs_ok cabs t) by exact Habs.
@@ -402,10 +403,11 @@ Section CRightTop.
     unfold mps_compress. cbn [negb]. rewrite E1. cbn [m_qd m_qD m_A]. fold qd.
     destruct (rev As1) as [|A0 rest] eqn:EA.
     { exfalso. apply HneA1. rewrite <- (rev_involutive As1), EA. reflexivity. }
-    destruct (rev qDs1) as [|q0 qrest] eqn:EQ; [simpl in HshapeM; discriminate|].
+    destruct (rev qDs1) as [|q0 qrest] eqn:EQ.
+    { unfold lens in HshapeM. cbn [map chain_shape] in HshapeM. discriminate. }
     cbn [map] in *.
     destruct (sweep_mirror_gen CF (stepRs dsvd pick tol qd) (stepM qd tol dsvd pick)
-                (stepRs_rel F qd tol dsvd pick) (stepM_out_wf F qd tol dsvd pick)
+                (stepRs_rel F d qd tol dsvd pick Hd Lqd) (stepM_out_wf F d qd tol dsvd pick Hd Lqd)
                 rest A0 q0 qrest (Forall_inv HwfA1) (Forall_inv_tail HwfA1)) as [HSW HARGS].
     assert (Hq0 : length (zneg q0) = 1) by exact HhdM.
     assert (Hlast' : length (last (map zneg qrest) (zneg q0)) = 1).
@@ -419,7 +421,7 @@ Section CRightTop.
     { intros T (As & qs & ES) H111. apply HT. rewrite HSW, ES. cbn [omap mirS]. rewrite (get00_trs CF T H111). reflexivity. }
     rewrite (compress_core_mirror _ _ A0 rest q0 qrest HSW). rewrite EC. cbn [omap mirC].
     set (qs2 := zneg q0 :: qsM) in *.
-    eexists. eexists. exists nrm, sc. split; [exact E1|]. split; [reflexivity|]. cbn [m_qd m_qD m_A].
+    eexists. eexists. exists nrm, sc. split; [reflexivity|]. split; [reflexivity|]. cbn [m_qd m_qD m_A].
     rewrite map_length in HlAs.
     assert (HL : length (m_A p) = S (length rest)).
     { rewrite <- Hlen1. rewrite <- (rev_length As1), EA. reflexivity. }
@@ -457,7 +459,7 @@ Section CRightTop.
       - rewrite lens_mirror, hd_rev. exact Hls2.
       - rewrite lens_mirror, last_rev. exact Hhd2. }
     split; [exact Hn1''|]. split; [exact Hnrm|]. split; [exact Hn2|]. split; [exact Hsc0|].
-    rewrite HARGS.
+    rewrite EA, EQ, HARGS.
     split; [rewrite !map_length, Hlen, map_length; lia|].
     split. { intros e He. apply in_map_iff in He. destruct He as (a' & <- & Ha'). apply in_map_iff in Ha'. destruct Ha' as (a & <- & Ha).
              rewrite Forall_forall in Heps. exact (Heps a Ha). }
@@ -474,5 +476,26 @@ Section CRightTop.
       rewrite <- suml_scal_l. apply suml_ext. intros w Hw.
       apply words_ok in Hw. destruct Hw as [Hlw Hw].
       rewrite (HampM2 w ltac:(lia) Hw). rewrite (HampM1 w ltac:(lia) Hw). rewrite (Hamp1 w ltac:(lia) Hw). ring.
+  Qed.
+
+  Theorem compress_right_error (p : mps CF) (d : nat) (tol : F) :
+    1 <= d -> length (m_qd p) = d -> m_A p <> [] -> mps_ok p = true ->
+    length (hd [] (m_qD p)) = 1 -> length (last (m_qD p) []) = 1 ->
+    Forall (fun q => 1 <= length q) (m_qD p) ->
+    fle F (f0 F) tol -> flt F tol (f1 F) ->
+    Forall (qr_call_ok F dqr) (mps_orth_calls dqr true p) ->
+    (forall p1 n1, mps_orthonormalize dqr true p = Some (p1, n1) -> compress_ok dsvd pick tol false p1) ->
+    (forall t, compress_T dqr dsvd pick tol false p = Some t -> abs_ok cabs t) ->
+    exists p' nrm sc,
+      mps_compress dqr dsvd pick cabs tol false p = Some (p', nrm, sc) /\
+      fle F (fsub F (f1 F) (nsmul (length (m_A p)) tol)) (fmul F sc sc) /\ fle F (fmul F sc sc) (f1 F) /\
+      dist2 d (emb (fmul F nrm sc)) (m_A p') (m_A p) = emb (fmul F (fmul F nrm nrm) (fsub F (f1 F) (fmul F sc sc))) /\
+      fle F (fmul F (fmul F nrm nrm) (fsub F (f1 F) (fmul F sc sc))) (fmul F (fmul F nrm nrm) (nsmul (length (m_A p)) tol)).
+  Proof.
+    intros Hd Lqd Hne Hok Hf Hl Hpos Ht0 Ht1 Hq Hs Ha.
+    destruct (compress_right_spec p d tol Hd Lqd Hne Hok Hf Hl Hpos Ht0 Ht1 Hq Hs Ha)
+      as (p1 & p' & nrm & sc & _ & E & _ & Hlen & _ & _ & _ & _ & _ & _ & _ & Hn1 & _ & Hn2 & _ & Hle & Heps & Hsq & _ & Hov).
+    exists p', nrm, sc. split; [exact E|]. rewrite <- Hle.
+    apply (scale_and_error F d (m_A p) (m_A p') nrm sc tol (compress_eps dsvd pick tol false p1)); assumption.
   Qed.
 End CRightTop.
